@@ -21,7 +21,7 @@ import sys
 import types
 
 logging.disable(logging.CRITICAL)
-sys.path.insert(0, os.path.join(os.path.dirname(os.path.abspath(__file__)), "..", "translators"))
+sys.path.insert(0, os.environ.get("PYFUN_DIR") or os.path.join(os.path.dirname(os.path.abspath(__file__)), "..", "translators"))
 import pyfun  # noqa: E402
 
 REPO = os.environ.get("VERIF_REPO", "/repo")
@@ -54,6 +54,10 @@ def module_of(path):
 
 def make_frag(item, mod):
     mode, fn, payload, _lines, _src = pyfun.locate(os.path.join(REPO, item["path"]), item["qualname"], item["spec"])
+    binds = getattr(fn, "_bindings", {})
+    def keys(env):
+        """'$x' keys of the environment are the locals named by role (spec['bind'])"""
+        return {(binds[k[1:]] if k.startswith("$") else k): v for k, v in env.items()}
     if mode == "function":
         return None
     if mode == "expr":
@@ -61,15 +65,15 @@ def make_frag(item, mod):
         ast.fix_missing_locations(node)
         code = compile(node, item["path"], "eval")
         def frag(env):
-            return eval(code, dict(vars(mod)), dict(env))
+            return eval(code, dict(vars(mod)), keys(env))
         return frag
     body = [s for s in payload]
     node = ast.Module(body=body, type_ignores=[])
     ast.fix_missing_locations(node)
     code = compile(node, item["path"], "exec")
-    rets = item["spec"]["returns"]
+    rets = getattr(fn, "_spec", item["spec"])["returns"]
     def frag(env):
-        loc = dict(env)
+        loc = keys(env)
         exec(code, dict(vars(mod)), loc)
         vs = [loc[r] for r in rets]
         return vs[0] if len(vs) == 1 else tuple(vs)
